@@ -232,7 +232,9 @@ def run_variant(case):
             elif hidx == "same object":
                 # the very script OBJECT under test, run earlier on an engine of any kind: a script is an input, running
                 # it leaves it what it was
-                d2, k2, s2, i2 = desc, r.choice(engines.KINDS), script, info
+                # (on its own kind of engine or on the event-driven one: a fixed-step engine of ANOTHER kind would take the step
+                # chosen for this kind - a step that is fine for Euler can send tau-leap into the known propensity overflow)
+                d2, k2, s2, i2 = desc, r.choice([kind_, kind_, "gillespie"]), script, info
             elif isinstance(hidx, list):
                 d2, k2, s2, i2 = build_script(sd, idx, sibling=hidx[1])
             else:
